@@ -85,12 +85,21 @@ const (
 	// DuplicateDigestAttr: granted, but the token's message-digest attribute carries the
 	// digest twice (SET of two identical values): attributes must be single-valued.
 	DuplicateDigestAttr
+	// AttrsSignedSorted: granted; the signed attributes are emitted in non-DER order
+	// (reversed) while the signature value was computed over their DER-sorted encoding: a
+	// verifier that digests the attributes as encoded must refuse the token.
+	AttrsSignedSorted
+	// ContentSwapped: granted; a token correctly signed over one TSTInfo whose content is
+	// then replaced by another TSTInfo (same imprint and nonce, later time and serial): the
+	// message-digest attribute no longer matches the content.
+	ContentSwapped
 )
 
 var behaviourNames = [...]string{"Valid", "WrongNonce", "OmitNonce", "WrongImprint", "WrongImprintAlg",
 	"StatusRejection", "StatusWaiting", "GrantedNoToken", "BadTokenSignature", "HTTP500", "Garbage",
 	"Truncated", "WrongContentType", "Hang", "GrantedWithMods",
-	"MSValid", "MSWrongContent", "MSBadSignature", "MSGarbage", "MSHTTP500", "RejectionWithToken", "DuplicateDigestAttr"}
+	"MSValid", "MSWrongContent", "MSBadSignature", "MSGarbage", "MSHTTP500", "RejectionWithToken", "DuplicateDigestAttr",
+	"AttrsSignedSorted", "ContentSwapped"}
 
 func (b Behaviour) String() string {
 	if b >= 0 && int(b) < len(behaviourNames) {
@@ -103,7 +112,7 @@ func (b Behaviour) String() string {
 var (
 	RFC3161Behaviours = []Behaviour{Valid, WrongNonce, OmitNonce, WrongImprint, WrongImprintAlg, StatusRejection,
 		StatusWaiting, GrantedNoToken, BadTokenSignature, HTTP500, Garbage, Truncated, WrongContentType, Hang, GrantedWithMods,
-		RejectionWithToken, DuplicateDigestAttr}
+		RejectionWithToken, DuplicateDigestAttr, AttrsSignedSorted, ContentSwapped}
 	MSBehaviours = []Behaviour{MSValid, MSWrongContent, MSBadSignature, MSGarbage, MSHTTP500}
 )
 
@@ -384,6 +393,11 @@ type cmsSpec struct {
 	includeCerts bool
 	flipSig      bool
 	dupDigest    bool // message-digest attribute with the value twice
+	// emitReversed writes the signed attributes in reverse DER order; the signature is
+	// still made over the sorted encoding
+	emitReversed bool
+	// emitContent, if set, replaces the content after signing
+	emitContent []byte
 }
 
 // signCMS emits ContentInfo{SignedData} with one SignerInfo
@@ -433,6 +447,14 @@ func (a *Authority) signCMS(s cmsSpec) ([]byte, error) {
 	}
 	signedAttrs := der.EncContext(0, true, der.Cat(der.SortDER(attrs)...))
 	tbs := append([]byte{0x31}, signedAttrs[1:]...)
+	if s.emitReversed {
+		sorted := der.SortDER(attrs)
+		rev := make([][]byte, len(sorted))
+		for i := range sorted {
+			rev[len(sorted)-1-i] = sorted[i]
+		}
+		signedAttrs = der.EncContext(0, true, der.Cat(rev...))
+	}
 	rnd := a.Rand
 	if rnd == nil {
 		rnd = rand.Reader
@@ -461,10 +483,14 @@ func (a *Authority) signCMS(s cmsSpec) ([]byte, error) {
 	if s.contentType == der.OIDData {
 		version = 1
 	}
+	content := s.content
+	if s.emitContent != nil {
+		content = s.emitContent
+	}
 	sd := der.EncSeq(
 		der.EncInt64(version),
 		der.EncSet(digestAlg),
-		der.EncSeq(der.EncOID(s.contentType), der.EncExplicit(0, der.EncOctets(s.content))),
+		der.EncSeq(der.EncOID(s.contentType), der.EncExplicit(0, der.EncOctets(content))),
 		certs,
 		der.EncSet(si))
 	return der.EncSeq(der.EncOID(der.OIDSignedData), der.EncExplicit(0, sd)), nil
@@ -553,14 +579,19 @@ func (a *Authority) Token(hash crypto.Hash, imprint []byte, nonce *big.Int, cert
 
 func (a *Authority) token(req *Request, b Behaviour) ([]byte, *big.Int, error) {
 	serial := a.nextSerial()
-	tok, err := a.signCMS(cmsSpec{
+	spec := cmsSpec{
 		contentType:  der.OIDTSTInfo,
 		content:      a.tstInfo(req, b, serial),
 		signingCert:  a.AddSigningCertAttr,
 		includeCerts: a.IncludeCerts && req.CertReq,
 		flipSig:      b == BadTokenSignature,
 		dupDigest:    b == DuplicateDigestAttr,
-	})
+		emitReversed: b == AttrsSignedSorted,
+	}
+	if b == ContentSwapped {
+		spec.emitContent = a.tstInfo(req, b, new(big.Int).Add(serial, big.NewInt(1000)))
+	}
+	tok, err := a.signCMS(spec)
 	return tok, serial, err
 }
 
